@@ -1018,8 +1018,10 @@ class Interp:
         q = source.qualname(func)
         bound = self.bind_args(func, args, kw)
         c = self.reg.get(q)
-        if c is not None and not (self.fcontract is not None and self.depth == 0 and False):
+        if c is not None and not getattr(c, 'inline_at_calls', False):
             return c.apply(self, bound)
+        if c is not None:
+            return self.inline(func, bound)       # verified on its own, simple enough to inline at call sites
         if self.reg.is_inline(q):
             return self.inline(func, bound)
         raise Unsupported('call to %s needs a contract' % q)
